@@ -60,72 +60,85 @@ Clauses(e, n) ==
       expCash  == Pick(n, "cash", cash)
       expHist  == Pick(n, "hist", hist)
       expQueue == Pick(n, "queue", queue)
-      obsv     == ObserveOf(ps, cash', pos')
       expFills == IF c.op = "update" /\ ~rej /\ IsOpen(c.t) THEN ExpectedFills(c.t)
                   ELSE IF c.op = "pf_txn" /\ ~rej THEN n.batch ELSE << >>
       expMarks == IF c.op = "update" /\ ~rej THEN ExpectedMarks
                   ELSE IF c.op = "pf_mark" /\ ~rej /\ c.asset \in DOMAIN pos[c.pid]
                        THEN { << c.pid, c.asset, c.px >> } ELSE {}
-      T(p, s)  == IF rej THEN << "C15", "state(" \o p \o ":" \o s \o ")" >> ELSE << p, s >>
-  IN
-  { << IF rej \/ c.op \in {"pf_sub", "pf_wd", "pf_mark", "pf_txn"} THEN << "C15", "outcome" >>
-       ELSE << OwnerOf(c.op), "outcome" >>,
-       e.err = expErr >>,
-    << T("C01", "master"),  master' = Pick(n, "master", master) >>,
-    << T("C01", "other-currency"), e.post.other = 0 >>,
-    << T("C01", "portfolios"), created' = Pick(n, "created", created) >>,
-    << T("C01", "cash"), \A p \in ps : p \in DOMAIN expCash /\ cash'[p] = expCash[p] >>,
-    << T("C01", "history"),
-       \A p \in ps \cap DOMAIN expHist :
-         LET new == Len(expHist[p]) - (IF p \in DOMAIN hist THEN Len(hist[p]) ELSE 0)
-             old == IF p \in DOMAIN lhist THEN lhist[p] ELSE << >>
-         IN  /\ Len(lhist'[p]) = Len(old) + new
-             /\ SubSeq(lhist'[p], 1, Len(old)) = old
-             /\ \A i \in 1..new :
-                  HistEvMatches(lhist'[p][Len(old) + i], expHist[p][Len(expHist[p]) - new + i]) >>,
-    << T("C04", "queue"), \A p \in ps : p \in DOMAIN expQueue /\ queue'[p] = expQueue[p] >>,
-    << T("C04", "batch"), Ident(e.fills) = Ident(expFills) >>,
-    \* a fill lands in the portfolio the order was submitted to: otherwise the submitting portfolio's cash and
-    \* holdings miss one of ITS fills (and another portfolio's move without an order of its own)
-    << T("C01", "fill-portfolio"), c.op = "update" => \A k \in 1..Len(e.fills) :
-         e.fills[k].pid \in DOMAIN queue /\ \E j \in 1..Len(queue[e.fills[k].pid]) : queue[e.fills[k].pid][j].oid = e.fills[k].oid >>,
-    << T("C02", "fill-portfolio"), c.op = "update" => \A k \in 1..Len(e.fills) :
-         e.fills[k].pid \in DOMAIN queue /\ \E j \in 1..Len(queue[e.fills[k].pid]) : queue[e.fills[k].pid][j].oid = e.fills[k].oid >>,
-    << T("C05", "price"), \A k \in 1..Len(e.fills) :
-         LET f == e.fills[k] IN c.op = "update" =>
-           /\ (f.qty > 0 => f.px = quote[f.asset].ask) /\ (f.qty < 0 => f.px = quote[f.asset].bid) >>,
-    << T("C05", "commission"), \A k \in 1..Len(e.fills) :
-         LET f == e.fills[k] IN c.op = "update" => f.comm \in CommissionSet(f.px, f.qty) /\ f.comm >= 0 >>,
-    << T("C05", "stamp"), \A k \in 1..Len(e.fills) : e.fills[k].t = c.t >>,
-    << T("C02", "marks"), { << e.marks[k].pid, e.marks[k].asset, e.marks[k].px >> : k \in 1..Len(e.marks) } = expMarks >>,
-    << T("C02", "domain"), \A p \in ps : DOMAIN lhold'[p] = DOMAIN obsv.hold[p] >>,
-    << T("C02", "qty"), \A p \in ps : \A a \in DOMAIN lhold'[p] \cap DOMAIN obsv.hold[p] :
-         lhold'[p][a].qty = obsv.hold[p][a].qty >>,
-    << T("C02", "mv"), \A p \in ps : \A a \in DOMAIN lhold'[p] \cap DOMAIN obsv.hold[p] :
-         lhold'[p][a].mv = obsv.hold[p][a].mv >>,
-    << T("C02", "mv-total"), \A p \in ps : e.post.tmv[p] = obsv.tmv[p] >>,
-    << T("C02", "equity"), \A p \in ps : e.post.teq[p] = obsv.teq[p] >>,
-    << T("C03", "pnl"), \A p \in ps : \A a \in DOMAIN lhold'[p] \cap DOMAIN obsv.hold[p] :
-         /\ RWithin1(lhold'[p][a].rpnl, obsv.hold[p][a].rpnl)
-         /\ RWithin1(lhold'[p][a].upnl, obsv.hold[p][a].upnl)
-         /\ RWithin1(lhold'[p][a].tpnl, obsv.hold[p][a].tpnl)
-         \* the identity itself, on the logged figures, to within the three roundings
-         /\ Abs(lhold'[p][a].tpnl - lhold'[p][a].rpnl - lhold'[p][a].upnl) <= 2
-         /\ Abs(lhold'[p][a].tpnl - (lhold'[p][a].mv - pos'[p][a].paid - pos'[p][a].fees)) <= 1 >>,
-    << << "C01", "account-equity" >>, e.post.acctEq = obsv.acctEq >>,
-    << << "C01", "account-market-value" >>, e.post.acctMv = obsv.acctMv >>,
-    << << "C15", "getter-errtype" >>, e.post.unk = UnknownIdErr >>,
-    \* ghost-ledger invariants on the LOGGED balances: catches cumulative drift
-    << T("C01", "ledger"), \A p \in ps : p \in DOMAIN ledger' /\
-         cash'[p] = ledger'[p].in - ledger'[p].out - ledger'[p].cost >>,
-    << T("C01", "zero-sum"), master' + SumOver(ps, cash') +
-         SumOver(ps \cap DOMAIN ledger', [p \in ps \cap DOMAIN ledger' |-> ledger'[p].cost]) = ext'.in - ext'.out >>,
-    << T("C02", "net"), \A p \in ps \cap DOMAIN net' : \A a \in Assets :
-         (IF a \in DOMAIN lhold'[p] THEN lhold'[p][a].qty ELSE 0) = net'[p][a] >>,
-    << T("C02", "latest-price"), \A p \in ps \cap DOMAIN seen' : \A a \in DOMAIN lhold'[p] :
-         lhold'[p][a].mv = lhold'[p][a].qty * seen'[p][a] >>,
-    << << "MODEL", "clocks" >>, now' = Pick(n, "now", now) /\ clk' = Pick(n, "clk", clk) >>
-  }
+      \* the price the implementation currently values a holding at (market value / quantity)
+      PxObs(p, a) == lhold'[p][a].mv \div lhold'[p][a].qty
+      Common == {
+        << IF rej \/ c.op \in {"pf_sub", "pf_wd", "pf_mark", "pf_txn"} THEN << "C15", "outcome" >>
+           ELSE << OwnerOf(c.op), "outcome" >>,
+           e.err = expErr >>,
+        \* account totals: obtainable, and the sum of the per-portfolio figures the getters report
+        << << "C01", "account-equity" >>, e.post.acctEq = SumOver(ps, e.post.teq) >>,
+        << << "C01", "account-market-value" >>, e.post.acctMv = SumOver(ps, e.post.tmv) >>,
+        << << "C01", "other-currency" >>, e.post.other = 0 >>,
+        << << "C15", "getter-errtype" >>, e.post.unk = UnknownIdErr >>,
+        \* equity = cash + market value; market value = sum over the holdings report
+        << << "C02", "equity" >>, \A p \in ps : e.post.teq[p] = cash'[p] + e.post.tmv[p] >>,
+        << << "C02", "mv-total" >>, \A p \in ps : e.post.tmv[p] = SumOver(DOMAIN lhold'[p], [a \in DOMAIN lhold'[p] |-> lhold'[p][a].mv]) >>,
+        << << "MODEL", "clocks" >>, now' = Pick(n, "now", now) /\ clk' = Pick(n, "clk", clk) >> }
+      \* a refused request: every observable the property lists is exactly as the PREVIOUS event logged it
+      Refused == {
+        << << "C15", "state(master)" >>, master' = master >>,
+        << << "C15", "state(portfolios)" >>, created' = created >>,
+        << << "C15", "state(cash)" >>, cash' = cash >>,
+        << << "C15", "state(holdings)" >>, \A p \in ps \cap DOMAIN lhold :
+               /\ DOMAIN lhold'[p] = DOMAIN lhold[p]
+               /\ \A a \in DOMAIN lhold[p] : lhold'[p][a].qty = lhold[p][a].qty /\ lhold'[p][a].mv = lhold[p][a].mv >>,
+        << << "C15", "state(pending-orders)" >>, queue' = queue >>,
+        << << "C15", "state(history)" >>, lhist' = lhist >>,
+        << << "C15", "state(no-fill)" >>, e.fills = << >> /\ e.marks = << >> >> }
+      \* an accepted request: the logged post-state is the Effect applied to the previous logged state
+      Accepted == {
+        << << "C01", "master" >>,  master' = Pick(n, "master", master) >>,
+        << << "C01", "portfolios" >>, created' = Pick(n, "created", created) >>,
+        << << "C01", "cash" >>, \A p \in ps : p \in DOMAIN expCash /\ cash'[p] = expCash[p] >>,
+        << << "C01", "history" >>,
+           \A p \in ps \cap DOMAIN expHist :
+             LET new == Len(expHist[p]) - (IF p \in DOMAIN hist THEN Len(hist[p]) ELSE 0)
+                 old == IF p \in DOMAIN lhist THEN lhist[p] ELSE << >>
+             IN  /\ Len(lhist'[p]) = Len(old) + new
+                 /\ SubSeq(lhist'[p], 1, Len(old)) = old
+                 /\ \A i \in 1..new :
+                      HistEvMatches(lhist'[p][Len(old) + i], expHist[p][Len(expHist[p]) - new + i]) >>,
+        << << "C04", "queue" >>, \A p \in ps : p \in DOMAIN expQueue /\ queue'[p] = expQueue[p] >>,
+        << << "C04", "batch" >>, Ident(e.fills) = Ident(expFills) >>,
+        \* a fill lands in the portfolio the order was submitted to: otherwise the submitting portfolio's cash and
+        \* holdings miss one of ITS fills (and another portfolio's move without an order of its own)
+        << << "C01", "fill-portfolio" >>, c.op = "update" => \A k \in 1..Len(e.fills) :
+             e.fills[k].pid \in DOMAIN queue /\ \E j \in 1..Len(queue[e.fills[k].pid]) : queue[e.fills[k].pid][j].oid = e.fills[k].oid >>,
+        << << "C02", "fill-portfolio" >>, c.op = "update" => \A k \in 1..Len(e.fills) :
+             e.fills[k].pid \in DOMAIN queue /\ \E j \in 1..Len(queue[e.fills[k].pid]) : queue[e.fills[k].pid][j].oid = e.fills[k].oid >>,
+        << << "C05", "price" >>, \A k \in 1..Len(e.fills) :
+             LET f == e.fills[k] IN c.op = "update" =>
+               /\ (f.qty > 0 => f.px = quote[f.asset].ask) /\ (f.qty < 0 => f.px = quote[f.asset].bid) >>,
+        << << "C05", "commission" >>, \A k \in 1..Len(e.fills) :
+             LET f == e.fills[k] IN c.op = "update" => f.comm \in CommissionSet(f.px, f.qty) /\ f.comm >= 0 >>,
+        << << "C05", "stamp" >>, \A k \in 1..Len(e.fills) : e.fills[k].t = c.t >>,
+        << << "C02", "marks" >>, { << e.marks[k].pid, e.marks[k].asset, e.marks[k].px >> : k \in 1..Len(e.marks) } = expMarks >>,
+        \* holdings = net of the OBSERVED fills, valued at the latest price seen (ghosts follow the observed sub-events)
+        << << "C02", "domain" >>, \A p \in ps \cap DOMAIN net' : DOMAIN lhold'[p] = { a \in Assets : net'[p][a] # 0 } >>,
+        << << "C02", "qty" >>, \A p \in ps \cap DOMAIN net' : \A a \in DOMAIN lhold'[p] : lhold'[p][a].qty = net'[p][a] >>,
+        << << "C02", "mv" >>, \A p \in ps \cap DOMAIN seen' : \A a \in DOMAIN lhold'[p] :
+             lhold'[p][a].mv = lhold'[p][a].qty * seen'[p][a] >>,
+        \* P&L: realised as the accounting says; the three identities of C03 relative to the price the
+        \* implementation currently values the holding at
+        << << "C03", "pnl" >>, \A p \in ps \cap DOMAIN pos' : \A a \in DOMAIN lhold'[p] \cap DOMAIN pos'[p] :
+             lhold'[p][a].qty = Net(pos'[p][a]) /\ lhold'[p][a].qty # 0 =>
+               LET P == Mark(pos'[p][a], PxObs(p, a), pos'[p][a].pclk) IN
+               /\ RWithin1(lhold'[p][a].rpnl, Realised(P))
+               /\ RWithin1(lhold'[p][a].upnl, Unrealised(P))                                  \* (price - avg cost) * net
+               /\ Abs(lhold'[p][a].tpnl - lhold'[p][a].rpnl - lhold'[p][a].upnl) <= 2         \* total = realised + unrealised
+               /\ Abs(lhold'[p][a].tpnl - (lhold'[p][a].mv - P.paid - P.fees)) <= 1 >>,        \* = market value - paid - fees
+        \* ghost-ledger invariants on the LOGGED balances: catches cumulative drift
+        << << "C01", "ledger" >>, \A p \in ps : p \in DOMAIN ledger' /\
+             cash'[p] = ledger'[p].in - ledger'[p].out - ledger'[p].cost >>,
+        << << "C01", "zero-sum" >>, master' + SumOver(ps, cash') +
+             SumOver(ps \cap DOMAIN ledger', [p \in ps \cap DOMAIN ledger' |-> ledger'[p].cost]) = ext'.in - ext'.out >> }
+  IN  Common \cup (IF rej THEN Refused ELSE Accepted)
 
 Step ==
   /\ l <= Len(Tr.ev)
